@@ -98,13 +98,13 @@ func transformJS(code string, opts api.TransformOptions) (string, bool, []api.Me
 
 func c13CheckBatch(c *Check, node *Node, inputs []string, words [][]string, src string) {
 	type item struct {
-		in        string
-		w         []string
-		ok        bool
-		out       string
-		v8s, v8m  bool
-		onlyMod   bool
-		onlyScr   bool
+		in       string
+		w        []string
+		ok       bool
+		out      string
+		v8s, v8m bool
+		onlyMod  bool
+		onlyScr  bool
 	}
 	items := make([]*item, len(inputs))
 	var sc []synCase
@@ -222,7 +222,7 @@ func c13CheckBatch(c *Check, node *Node, inputs []string, words [][]string, src 
 }
 
 // Filled in after classification of first runs (fixed list in the generator, not learned at run time).
-func c13DocumentedReject(in string, v8s, v8m bool) bool { return false }
+func c13DocumentedReject(in string, v8s, v8m bool) bool            { return false }
 func c13DocumentedOutput(in, cfg, goal string, v8s, v8m bool) bool { return false }
 
 func runC13(c *Check) {
